@@ -64,6 +64,7 @@ impl Check for C03 {
                 let payload = bytes_of_len(ctx, lp);
                 let detached = ctx.rng.coin();
                 c03_decoded_case(ctx, &body, &signer, &aad, &payload, detached);
+                c03_decoded_countersig_case(ctx, &body, &signer, &aad, &payload);
             }
             _ => {
                 let body = gen_prot_variant(ctx, Origin::Built);
@@ -78,6 +79,7 @@ impl Check for C03 {
                 let empty = MProt { bytes: None, header: MHeader::default() };
                 c03_case(ctx, &body, &empty, &data, &[], 1);
                 c03_case(ctx, &empty, &empty, &[], &data, 1);
+                unencodable_header_case(ctx, "Sig_structure", &data, &data);
             }
         }
     }
